@@ -146,9 +146,10 @@ def tmpl? (s : String) : Option (List Desc.Cmd) :=
       pure (.group { threshold := k, keys := ks, verify := v })
     | _ => none
 
-def posOut : Option (Nat × Nat) → String
-  | some (b, i) => s!"ok {b} {i}"
-  | none => "ok None"
+def posOut : Option (Option (Nat × Nat)) → String
+  | some (some (b, i)) => s!"ok {b} {i}"
+  | some none => "ok None"
+  | none => "err value"
 
 def handle : List String → String
   | "gen" :: "Descsum" :: fn :: args => (Gen.Descsum.dispatch fn args).getD "bad-op"
@@ -278,6 +279,14 @@ def handle : List String → String
       match Scan.positionOf (fun (b : Nat) i => ((bs.getD b []).getD i 0)) q last (List.range bs.length) with
       | some (b, i) => s!"ok {b} {i}"
       | none => "ok None"
+    | _, _, _ => "bad-op"
+  | ["scan.posE", last, query, branches] =>
+    -- rows of script ids, `x` = a position the wallet cannot derive (raises); past the row's end raises too
+    match last.toNat?, query.toNat?,
+        (branches.splitOn "|").mapM (fun r => (r.splitOn ",").mapM fun t => if t == "x" then some none else t.toNat?.map some) with
+    | some last, some q, some bs =>
+      posOut (Scan.scanE (fun (b : Nat) i => (((bs.getD b []).getD i none)).map fun t => decide (t = q)) (fun _ => last)
+        (List.range bs.length))
     | _, _, _ => "bad-op"
   | ["scan.dpos", last, query, flags, branches] =>
     match last.toNat?, query.toNat?, (flags.splitOn ",").mapM bool?, (branches.splitOn "|").mapM rows? with
